@@ -53,7 +53,9 @@ func c03Reader(b []byte) io.Reader {
 	return bytes.NewReader(b)
 }
 
-func c03NoLinks(mode string) bool { return mode == "nolinks" || mode == "fn-cbor" || mode == "reg-0x51" }
+func c03NoLinks(mode string) bool {
+	return mode == "nolinks" || mode == "fn-cbor" || mode == "reg-0x51"
+}
 
 func c03Decoder(mode string) func(datamodel.NodeAssembler, io.Reader) error {
 	switch mode {
@@ -68,7 +70,9 @@ func c03Decoder(mode string) func(datamodel.NodeAssembler, io.Reader) error {
 		}
 		d, err := multicodec.LookupDecoder(code)
 		if err != nil {
-			return func(datamodel.NodeAssembler, io.Reader) error { return fmt.Errorf("HARNESS: no decoder registered for 0x%x", code) }
+			return func(datamodel.NodeAssembler, io.Reader) error {
+				return fmt.Errorf("HARNESS: no decoder registered for 0x%x", code)
+			}
 		}
 		return d
 	}
